@@ -485,6 +485,67 @@ pub fn run(run: &Run) {
         }
         run.count("application_call_scripts", n);
     }
+    // ---- a client whose connection request was accepted: it has sent its own window announcement and chunk size
+    //      (two more 4-byte control messages on the protocol control chunk stream) before its acknowledgements ----
+    {
+        use crate::refmodel::amf0::{encode_seq, V};
+        let mut n = 0u64;
+        for w in [50u32, 300] {
+            for first_window in [true, false] {
+                let g = G { w0: w, sizes: vec![], reannounce: vec![], acks: AtomicU64::new(0), exact_landings: AtomicU64::new(0), reannouncements: AtomicU64::new(0), others: AtomicU64::new(0) };
+                let mut cur = fresh(1);
+                // the application asks for a connection; the transaction number is read from the emitted command
+                let tx_bits = {
+                    let o = match &mut cur.sess {
+                        Sess::Client(h) => h.step(&CAct::RequestConnection { app: "a".into() }),
+                        _ => unreachable!(),
+                    };
+                    ti += 1;
+                    let outs = match decode_with_lib(&mut cur.de, &o.packets) {
+                        Ok(x) => x,
+                        Err(e) => {
+                            run.violation("C17/undecodable-output/client", &e, json!({"session": "client", "graph": "accepted connection", "ops": ["request_connection"]}));
+                            continue;
+                        }
+                    };
+                    outs.iter().find_map(|x| if let M::Command { name, tx, .. } = &x.m { if name == "connect" { Some(*tx) } else { None } } else { None })
+                };
+                let tx_bits = match tx_bits {
+                    Some(b) => b,
+                    None => continue, // no connect command was emitted: not this property's subject (C10 judges it)
+                };
+                let result = encode_seq(&[V::Str("_result".into()), V::Num(tx_bits), V::Null, V::Obj(vec![("code".into(), V::Str("NetConnection.Connect.Success".into()))])], &Default::default());
+                let mut script: Vec<Act> = Vec::new();
+                if first_window {
+                    script.push(Act::Reannounce(w));
+                }
+                script.push(Act::Other(20, result));
+                if !first_window {
+                    script.push(Act::Reannounce(w));
+                }
+                script.extend(vec![Act::Call(w as usize - 1), Act::Call(1), Act::Call(w as usize), Act::Other(4, vec![0, 6, 0, 0, 0, 9]), Act::Call(w as usize + 3), Act::Call(0),
+                    Act::Call(w as usize / 2 + 1), Act::Call(w as usize / 2 + 1), Act::Call(2 * w as usize)]);
+                let mut done: Vec<Value> = vec![json!("application: request_connection")];
+                for a in script.iter() {
+                    let o = g.step(&cur, a);
+                    ti += o.impl_steps;
+                    tt += 1;
+                    done.push(g.describe(a));
+                    if let Some((sig, d)) = o.viol.into_iter().next() {
+                        run.violation(&format!("{}/client", sig), &d, json!({"session": "client", "window": w, "graph": "accepted connection", "ops": done}));
+                        break;
+                    }
+                    cur = match o.succ.into_iter().next() {
+                        Some(x) => x,
+                        None => break,
+                    };
+                }
+                acks += g.acks.load(Ordering::Relaxed);
+                n += 1;
+            }
+        }
+        run.count("accepted_client_scripts", n);
+    }
     // ---- a publishing (and a playing) stream is closed / deleted while a window is in force: nothing but the byte
     //      count decides about acknowledgements ----
     {
